@@ -2271,6 +2271,36 @@ def verUsed (c : V2.I_Claims) (hdr : Option V2.T_Header) (ver : Int) : Int :=
   | .GenericClaims _, some h => if h.f_Algorithm != "ed25519".toList then 2 else ver
   | _, _ => ver
 
+/-- **C05, the header gate, on the translated code.** `parseHeaders` returns a header only if the segment decoded, the
+JSON reader filled a `Header` from it without error, and that header passes the model's `headerValid` (type `JWT`
+case-insensitively, algorithm exactly one of the two NATS Ed25519 names up to case — `v2_headerValid`) -/
+theorem gen_parseHeaders_accepts (opq : V2.Opq) (seg : Str) (h : V2.T_Header) (e : Bool)
+    (hp : V2.parseHeaders seg opq = some (some h, e)) :
+    e = false ∧ ∃ bytes, opq.decodeString seg = some (bytes, false) ∧
+      opq.json_UnmarshalHeader bytes { f_Type := [], f_Algorithm := [] } = (h, false) ∧
+      headerValid { typ := h.f_Type, alg := h.f_Algorithm } = true := by
+  unfold V2.parseHeaders at hp
+  rcases hd : opq.decodeString seg with _ | ⟨bytes, e1⟩
+  · simp [hd] at hp
+  cases e1
+  case true => simp [hd] at hp
+  simp only [hd, Option.pure_def, Option.bind_eq_bind, Option.bind_some, Bool.false_eq_true, if_false] at hp
+  rcases hu : opq.json_UnmarshalHeader bytes { f_Type := [], f_Algorithm := [] } with ⟨h', e2⟩
+  cases e2
+  case true => simp [hu] at hp
+  have hv := v2_headerValid h'.f_Type h'.f_Algorithm
+  simp only [hu, Bool.false_eq_true, if_false] at hp
+  cases hval : headerValid { typ := h'.f_Type, alg := h'.f_Algorithm }
+  · have : V2.Header_Valid h' = some true := by
+      have := hv; simp only [hval, Bool.not_false] at this; exact this
+    simp [this] at hp
+  · have : V2.Header_Valid h' = some false := by
+      have := hv; simp only [hval, Bool.not_true] at this; exact this
+    simp only [this, Option.bind_some, Bool.false_eq_true, if_false, Option.some.injEq, Prod.mk.injEq] at hp
+    obtain ⟨h1, h2⟩ := hp
+    subst h1
+    exact ⟨h2.symm, bytes, rfl, hu, hval⟩
+
 /-- `ClaimsData.verify` as translated never panics, and answers `true` exactly when the issuer string yields a key
 pair (`nkeys.FromPublicKey`), decodes under its own prefix to a 32-byte key (repair D11), and that key pair's `Verify`
 returns no error on the bytes of the payload text and the signature -/
@@ -2303,7 +2333,7 @@ theorem gen_decode_accepts (opq : V2.Opq) (tok : Str) (c : V2.I_Claims)
     (h : V2.Decode tok opq = some (some c, false)) :
     ∃ hd p s hdr data sig ver,
       splitOn '.' tok = [hd, p, s] ∧
-      opq.parseHeaders hd = some (hdr, false) ∧
+      V2.parseHeaders hd opq = some (hdr, false) ∧
       opq.decodeString p = some (data, false) ∧
       V2.loadClaims data opq = some (ver, some c, false) ∧
       opq.decodeString s = some (sig, false) ∧
@@ -2323,7 +2353,7 @@ theorem gen_decode_accepts (opq : V2.Opq) (tok : Str) (c : V2.I_Claims)
     have i2 : idx [hd, p, s] 2 = some s := rfl
     simp only [hsp, len, List.length_cons, List.length_nil, i0, i1, i2, Option.pure_def, Option.bind_eq_bind,
       Option.bind_some] at h
-    rcases hph : opq.parseHeaders hd with _ | ⟨hdr, e1⟩
+    rcases hph : V2.parseHeaders hd opq with _ | ⟨hdr, e1⟩
     · simp [hph] at h
     cases e1
     case true => simp [hph] at h
@@ -2427,7 +2457,7 @@ theorem gen_decode_authentic (opq : V2.Opq) (tok : Str) (c : V2.I_Claims)
     (h : V2.Decode tok opq = some (some c, false)) :
     ∃ hd p s hdr data sig ver kp raw,
       splitOn '.' tok = [hd, p, s] ∧
-      opq.parseHeaders hd = some (hdr, false) ∧
+      V2.parseHeaders hd opq = some (hdr, false) ∧
       opq.decodeString p = some (data, false) ∧
       V2.loadClaims data opq = some (ver, some c, false) ∧
       opq.decodeString s = some (sig, false) ∧
@@ -2449,7 +2479,7 @@ theorem gen_decode_authentic (opq : V2.Opq) (tok : Str) (c : V2.I_Claims)
 `gen_decode_accepts` is satisfiable, and the conclusion's verification text is the `hd.p` one) -/
 def demoOpq : V2.Opq :=
   { DecodeActivationClaims := fun _ => none, RenamingSubject_ToSubject := fun x => some x,
-    parseHeaders := fun _ => some (some { f_Type := "JWT".toList, f_Algorithm := "ed25519-nkey".toList }, false),
+    json_UnmarshalHeader := fun _ _ => ({ f_Type := "JWT".toList, f_Algorithm := "ed25519-nkey".toList }, false),
     decodeString := fun _ => some ([], false),
     loadOperator := fun _ _ => none, loadUser := fun _ _ => none, loadActivation := fun _ _ => none,
     loadAuthorizationRequest := fun _ _ => none, loadAuthorizationResponse := fun _ _ => none,
